@@ -28,12 +28,22 @@ class DeadlockDetected(RuntimeError):
 
 
 class Tracked:
+    """A lock the library created.  Optionally an event log is attached (C18): then every try / blocked / acquired / released
+    - also the release and re-acquisition that `threading.Condition.wait()` performs behind the back of `with lock:` - is
+    recorded with a logical clock, a bounded wait on a lock that another thread holds expires at once (virtual time), and an
+    owner that would block on its own non-reentrant lock gets an exception instead of hanging."""
     reentrant = False
+    log = None
+    name = "lock"
 
     def __init__(self):
         self._inner = _real_RLock() if self.reentrant else _real_Lock()
         self._owner = None
         self._count = 0
+
+    @property
+    def inner(self):
+        return self._inner
 
     def _cycle_from(self, me):
         """Follow the waits-for chain starting at this lock's owner; return the chain if it leads back to `me`."""
@@ -53,12 +63,29 @@ class Tracked:
 
     def acquire(self, blocking=True, timeout=-1):
         me = threading.get_ident()
+        log = self.log
+        if log is not None:
+            log.add("try", me, self.name)
         if self._inner.acquire(False):
             self._owner = me
             self._count += 1
+            if log is not None:
+                log.add("acquired", me, self.name, self._count)
             return True
         if not blocking:
             return False
+        if log is not None:
+            if not self.reentrant and self._owner == me:
+                log.add("self-deadlock", me, self.name)
+                raise DeadlockDetected("the owning thread would block on its own lock (lock is not re-entrant)")
+            log.add("blocked", me, self.name)
+            if timeout is not None and timeout >= 0:
+                # virtual time: a bounded wait may always expire while another thread is inside its critical section
+                log.add("timed-out", me, self.name)
+                import time as _time
+
+                _time.sleep(0.001)
+                return False
         if self.reentrant and self._owner == me:  # cannot happen for a real RLock, kept for safety
             self._inner.acquire()
             self._count += 1
@@ -86,14 +113,44 @@ class Tracked:
         if ok:
             self._owner = me
             self._count += 1
+            if log is not None:
+                log.add("acquired", me, self.name, self._count)
         return ok
 
     def release(self):
         self._count -= 1
+        d = self._count
         if self._count <= 0:
             self._owner = None
             self._count = 0
+        if self.log is not None:
+            self.log.add("released", threading.get_ident(), self.name, d)
         self._inner.release()
+
+    # -- protocol used by threading.Condition(lock).wait(): gives the lock up completely and takes it back afterwards --
+    def _release_save(self):
+        me = threading.get_ident()
+        saved = (self._owner, self._count)
+        self._owner, self._count = None, 0
+        if self.log is not None:
+            self.log.add("released", me, self.name, 0, "by Condition.wait()")
+        if self.reentrant:
+            return (self._inner._release_save(), saved)
+        self._inner.release()
+        return (None, saved)
+
+    def _acquire_restore(self, state):
+        inner_state, saved = state
+        if self.reentrant:
+            self._inner._acquire_restore(inner_state)
+        else:
+            self._inner.acquire()
+        self._owner, self._count = saved
+        if self.log is not None:
+            self.log.add("acquired", threading.get_ident(), self.name, self._count, "after Condition.wait()")
+
+    def _is_owned(self):
+        return self._owner == threading.get_ident()
 
     def locked(self):
         return self._owner is not None
